@@ -65,6 +65,23 @@ pub(crate) fn encode_long<W: Write>(i: i64, writer: W) -> AvroResult<usize> {
     zig_i64(i, writer)
 }
 
+/// Write the two's-complement representation of a decimal in the layout of its underlying type.
+fn encode_decimal_bytes<W: Write>(
+    bytes: &[u8],
+    inner: &InnerDecimalSchema,
+    writer: &mut W,
+) -> AvroResult<usize> {
+    match inner {
+        InnerDecimalSchema::Bytes => encode_bytes(bytes, writer),
+        InnerDecimalSchema::Fixed(fixed) => {
+            if bytes.len() != fixed.size {
+                return Err(Details::EncodeDecimalAsFixedError(bytes.len(), fixed.size).into());
+            }
+            write_all_counted(writer, bytes)
+        }
+    }
+}
+
 pub(crate) fn encode_int<W: Write>(i: i32, writer: W) -> AvroResult<usize> {
     zig_i32(i, writer)
 }
@@ -203,6 +220,10 @@ pub(crate) fn encode_internal<W: Write, S: Borrow<Schema> + Debug>(
         Value::Bytes(bytes) => match *schema {
             Schema::Bytes | Schema::Uuid(UuidSchema::Bytes) => encode_bytes(bytes, writer),
             Schema::Fixed { .. } => write_all_counted(writer, bytes.as_slice()),
+            // Validation accepts the two's-complement bytes of a decimal
+            Schema::Decimal(DecimalSchema { ref inner, .. }) => {
+                encode_decimal_bytes(bytes, inner, writer)
+            }
             _ => Err(Details::EncodeValueAsSchemaError {
                 value_kind: ValueKind::Bytes,
                 supported_schema: vec![SchemaKind::Bytes, SchemaKind::Fixed, SchemaKind::Uuid],
@@ -225,7 +246,13 @@ pub(crate) fn encode_internal<W: Write, S: Borrow<Schema> + Debug>(
             }
             .into()),
         },
-        Value::Fixed(_, bytes) => write_all_counted(writer, bytes.as_slice()),
+        Value::Fixed(_, bytes) => match *schema {
+            // Validation accepts the two's-complement bytes of a decimal
+            Schema::Decimal(DecimalSchema { ref inner, .. }) => {
+                encode_decimal_bytes(bytes, inner, writer)
+            }
+            _ => write_all_counted(writer, bytes.as_slice()),
+        },
         Value::Enum(i, _) => encode_int(*i as i32, writer),
         Value::Union(idx, item) => {
             if let Schema::Union(ref inner) = *schema {
